@@ -2,7 +2,7 @@
     (program/section header table walking with file-controlled entry sizes and
     counts, extended numbering, string table index), the first checks of
     [open_common] and the first walk over the PT_NOTE segments
-    (src/kdumpfile/elfdump.c, repaired by fixes 15, 74, 75).
+    (src/kdumpfile/elfdump.c, repaired by fixes 15, 74, 75, 79).
 
     Every header field is read through the checked accessors of a chunk that
     is exactly as long as the C code asked the file cache for: [e_phentsize]
@@ -222,26 +222,34 @@ Definition do_probe (alim : N) (f : file) (eh : chunk) : res elf_tables :=
 (** ** elf_probe up to and including the first note walk of open_common *)
 Record elf_result := { er_tables : elf_tables; er_notes : list note }.
 
-Fixpoint walk_notes (alim : N) (f : file) (be : bool) (segs : list segment) : res (list note) :=
+(** [check_file_extent] (fix 79): the note data must lie within the [flen]
+    bytes of the file *)
+Definition extent_ok (flen : N) (off : Z) (size : N) : bool :=
+  ((0 <=? off) && (off <=? Z.of_N flen))%Z && (size <=? flen - Z.to_N off).
+
+Fixpoint walk_notes (alim : N) (f : file) (flen : N) (be : bool) (segs : list segment)
+  : res (list note) :=
   match segs with
   | [] => Ok []
   | sg :: rest =>
+    if negb (extent_ok flen (sg_off sg) (of_off (sg_filesz sg))) then Err KCORRUPT StNotesExtent
+    else
     match get_chunk alim f (of_off (sg_filesz sg)) (sg_off sg) with
     | Ok c =>
       do ns <- do_notes be c;
-      do more <- walk_notes alim f be rest;
-      Ok (ns ++ more)
+      do more <- walk_notes alim f flen be rest;
+      Ok (rev_append (rev_append ns []) more)
     | Err st _ => Err st (StNotesRead (of_off (sg_off sg)))
     | OOB => OOB | DivZero => DivZero | BadShift => BadShift
     | NullCall => NullCall | OutOfFuel => OutOfFuel
     end
   end.
 
-Definition elf_probe (alim : N) (f : file) : res elf_result :=
+Definition elf_probe (alim : N) (f : file) (flen : N) : res elf_result :=
   do eh <- get_chunk alim f 64 0;
   do t <- do_probe alim f eh;
   if (N.of_nat (length (et_loads t)) =? 0) && (N.of_nat (length (et_sects t)) =? 0)
   then Err KNOTIMPL StNoContent
   else
-    do ns <- walk_notes alim f (et_be t) (et_notes t);
+    do ns <- walk_notes alim f flen (et_be t) (et_notes t);
     Ok {| er_tables := t; er_notes := ns |}.
